@@ -197,6 +197,20 @@ pub fn run(ctx: &Ctx, sh: &mut Shard) {
         if a.n_segments() + b.n_segments() > 90 {
             continue;
         }
+        // one case in three: an operand re-spelt (same point set: other type, permuted members, an EMPTY member
+        // somewhere in a Multi* / collection, ...)
+        let (a, b) = if k % 3 == 1 {
+            let alts = respellings(&mut r, &a);
+            if alts.is_empty() {
+                (a, b)
+            } else {
+                let i = r.below(alts.len() as u64) as usize;
+                sh.class(&format!("spelling:{}", alts[i].0));
+                (alts[i].1.clone(), b)
+            }
+        } else {
+            (a, b)
+        };
         // one case in five on the sheared lattice (all edges nearly parallel, products beyond 2^53)
         let lat = if k % 5 == 0 { Lat::random_sheared(&mut r) } else { lat };
         check_pair(sh, &a, &b, &lat, false);
